@@ -499,6 +499,11 @@ def run_T(spec, ctx):
                 continue
             if perms is None:
                 perms = R.unique_perms(ms)
+                if ctx.tier == "quick" and G.k == 3 and n >= 3:
+                    # quick tier: the transformations treat rows independently, so for the largest 3-objective fronts
+                    # only the sorted order and its reverse are run (thorough runs every order)
+                    perms = sorted({tuple(ms), tuple(ms[::-1])})
+                    ctx.flag("T:quick-tier-two-orders-only(3g3,n>=3)")
             for seq in perms:
                 scaled = t_scaled(G, seq, sign)
                 sid = _sid("T", gname, n, G.code(seq), extra=si + 1)
